@@ -8,6 +8,9 @@
 use inspector::Inspector;
 
 use super::*;
+// Verification hook (off by default), see lib.rs: the memo table's entry type under Kani.
+#[cfg(all(kani, feature = "memoization"))]
+use crate::verif_hashmodel as hashbrown;
 
 /// The type of a lazy parser.
 pub type Lazy<'src, A, I, E> =
